@@ -105,7 +105,7 @@ func ruleC03Emit(c *Checker) {
 
 func ruleC03Bundle(c *Checker) {
 	const R = "C03.bundle"
-	c.rule(R, "In the bundle preparation walk every 'keep' exit (nil return that did not remove the entry) is guarded by the not-excluded edge of the entry's evaluation, every excluded edge reaches os.RemoveAll of that entry before returning, and a failing rule evaluation returns an error.", 3)
+	c.rule(R, "In the bundle preparation walk a file (anything but a directory) whose own path is excluded is removed on every path from the excluded edge; a directory is removed with everything in it on the excluded-and-Dominating edge of the path+separator evaluation; every 'keep' exit (nil return not preceded by a removal) is reached only over the not-excluded edge of the entry's own evaluation, or for a directory (whose content is judged entry by entry); a failing rule evaluation returns an error.", 3)
 	p := c.P
 	ws := bundleWalks(p)
 	if len(ws) == 0 {
@@ -122,20 +122,52 @@ func ruleC03Bundle(c *Checker) {
 			}
 		}
 		isRemove := func(in ssa.Instruction) bool { return p.removesPath(in, pathParam) }
+		var infoParam *ssa.Parameter
+		for _, prm := range fn.Params {
+			if n, ok := types.Unalias(prm.Type()).(*types.Named); ok && n.Obj().Name() == "FileInfo" {
+				infoParam = prm
+			}
+		}
+		isDirT, _ := condEdges(fn, func(v ssa.Value) bool {
+			cl, ok := v.(*ssa.Call)
+			return ok && cl.Call.IsInvoke() && cl.Call.Method.Name() == "IsDir" && infoParam != nil && canon(cl.Call.Value) == ssa.Value(infoParam)
+		})
 		var allExF []Edge
 		for i, e := range ex {
 			pos := p.Pos(e.Call.Pos())
 			if i == 0 || !isDirFormArg(e.Arg) {
 				allExF = append(allExF, e.ExF...)
 			}
-			for _, te := range e.ExT {
-				first := te.To().Instrs[0]
-				ok, off := mustPassFromBlock(first, isRemove)
-				rp := pos
-				if off != nil {
-					rp = p.Pos(off.Pos())
+			if !isDirFormArg(e.Arg) {
+				// the entry's own path is excluded: a file (anything but a directory) is removed; a directory is
+				// left to the directory-form evaluation, because what lies below it is judged by its own path
+				for _, te := range e.ExT {
+					first := te.To().Instrs[0]
+					ok := isRemove(first)
+					var off ssa.Instruction
+					if !ok {
+						ok, off = mustPass(first, isRemove, isDirT)
+					}
+					rp := pos
+					if off != nil {
+						rp = p.Pos(off.Pos())
+					}
+					c.check(ok, R, name, fmt.Sprintf("excluded edge %d removes the entry", i), rp, "every path from the excluded edge that is not a directory's passes the removal of the entry", "an excluded file can be kept in the package directory")
 				}
-				c.check(ok, R, name, fmt.Sprintf("excluded edge %d removes the entry", i), rp, "every path from the excluded edge passes os.RemoveAll(entry)", "an excluded entry can be kept in the package directory")
+			} else {
+				// path + separator is excluded and the exclusion dominates: the whole subtree goes
+				for _, de := range e.DomT {
+					if !guarded(de.From, e.ExT) && !guarded(de.To(), e.ExT) {
+						continue
+					}
+					first := de.To().Instrs[0]
+					ok, off := mustPassFromBlock(first, isRemove)
+					rp := pos
+					if off != nil {
+						rp = p.Pos(off.Pos())
+					}
+					c.check(ok, R, name, fmt.Sprintf("dominating exclusion %d removes the subtree", i), rp, "every path from the excluded-and-dominating edge passes the removal of the directory", "an excluded subtree that no later rule can re-include is kept in the package directory")
+				}
 			}
 			if e.ErrV != nil {
 				nn, _ := errCheckEdges(fn, e.ErrV)
@@ -158,18 +190,53 @@ func ruleC03Bundle(c *Checker) {
 			}
 			// exits after a removal are 'removed' exits
 			removed := false
-			for _, e := range ex {
-				if guarded(r.Block(), e.ExT) {
-					removed = true
-				}
+			if ok, _ := mustPassBackward(r, isRemove); ok {
+				removed = true
 			}
 			if removed {
 				continue
 			}
-			// SkipDir exits: value is load of filepath.SkipDir
-			c.check(guarded(r.Block(), allExF), R, name, fmt.Sprintf("keep exit %d", i), p.Pos(r.Pos()), "reached only over the not-excluded edge", "an entry can be kept without having been tested against the ignore rules")
+			// kept: the entry's own path is not excluded — or it is a directory, whose content is judged entry
+			// by entry (an excluded directory that is not dominated stays for what may be re-included below it)
+			okKeep := p.guardedC(r.Block(), allExF) || p.guardedC(r.Block(), isDirT)
+			c.check(okKeep, R, name, fmt.Sprintf("keep exit %d", i), p.Pos(r.Pos()), "reached only over the not-excluded edge, or for a directory", "a file can be kept without having been tested against the ignore rules (or although its own path is excluded)")
 		}
 	}
+}
+
+// mustPassBackward: every path from the function entry to r passes an
+// instruction satisfying pass (r is only reachable through one).
+func mustPassBackward(r *ssa.Return, pass func(ssa.Instruction) bool) (bool, ssa.Instruction) {
+	fn := r.Parent()
+	// forward search from the entry that stops at passing instructions: r must be unreachable
+	seen := map[*ssa.BasicBlock]bool{}
+	var work []*ssa.BasicBlock
+	work = append(work, fn.Blocks[0])
+	seen[fn.Blocks[0]] = true
+	for len(work) > 0 {
+		b := work[len(work)-1]
+		work = work[:len(work)-1]
+		stopped := false
+		for _, in := range b.Instrs {
+			if pass(in) {
+				stopped = true
+				break
+			}
+			if in == ssa.Instruction(r) {
+				return false, in
+			}
+		}
+		if stopped {
+			continue
+		}
+		for _, s := range b.Succs {
+			if !seen[s] {
+				seen[s] = true
+				work = append(work, s)
+			}
+		}
+	}
+	return true, nil
 }
 
 func isDirFormArg(v ssa.Value) bool {
@@ -233,10 +300,20 @@ func ruleC03Prune(c *Checker) {
 			cl, ok := v.(*ssa.Call)
 			return ok && cl.Call.IsInvoke() && cl.Call.Method.Name() == "IsDir" && infoParam != nil && canon(cl.Call.Value) == ssa.Value(infoParam)
 		})
+		// the ok edge of a non-recursive os.Remove of the entry: the directory was empty and is gone
+		var emptyGone []Edge
+		for _, ci := range callsIn(fn) {
+			cl, ok := ci.(*ssa.Call)
+			if !ok || !isFunc(calleeObj(cl), "os", "Remove") || pathParam == nil || canon(cl.Call.Args[0]) != ssa.Value(pathParam) {
+				continue
+			}
+			okE, _ := okEdgesOfCall(cl)
+			emptyGone = append(emptyGone, okE...)
+		}
 		for _, r := range returnsOf(fn) {
 			for _, v := range returnValues(r, 0) {
 				if v != nil && isSkipDirValue(v) {
-					c.check(guarded(r.Block(), domT), R, name, "return SkipDir", p.Pos(r.Pos()), "only on the Dominating edge of the directory match", "a directory is pruned on a match that later negations may override (re-included files below it are lost)")
+					c.check(guarded(r.Block(), domT) || guarded(r.Block(), emptyGone), R, name, "return SkipDir", p.Pos(r.Pos()), "only on the Dominating edge of the directory match", "a directory is pruned on a match that later negations may override (re-included files below it are lost)")
 					c.check(guarded(r.Block(), isDirT), R, name, "SkipDir only for directories", p.Pos(r.Pos()), "returned only when the walked entry itself is a directory", "filepath.SkipDir can be returned for an entry that is not a directory (e.g. a symlink to one): filepath.Walk then skips the remaining entries of the containing directory, which are neither filtered nor validated nor shipped")
 				}
 			}
@@ -246,7 +323,10 @@ func ruleC03Prune(c *Checker) {
 			if !ok || pathParam == nil || !p.removesPath(cl, pathParam) {
 				continue
 			}
-			okp := guarded(cl.Block(), domT) || guarded(cl.Block(), notDir)
+			if isFunc(calleeObj(cl), "os", "Remove") {
+				continue // not recursive: removes a directory only when it is empty
+			}
+			okp := guarded(cl.Block(), domT) || p.guardedC(cl.Block(), notDir)
 			c.check(okp, R, name, "RemoveAll of a possibly-directory entry", p.Pos(cl.Pos()), "only on the Dominating edge (or for non-directories)", "a directory subtree is removed on a match that later negations may override (re-included files below it are lost)")
 		}
 	}
@@ -464,6 +544,15 @@ func ruleC03Glob(c *Checker) {
 		sort.Strings(out)
 		return out, true
 	}
+	// the flags the whole expression is compiled with: the constant the accumulator starts from
+	prefix := ""
+	for _, e := range acc.Edges {
+		if sv, ok := constString(e); ok {
+			if i := strings.Index(sv, "^"); i > 0 && strings.HasPrefix(sv, "(?") {
+				prefix = sv[:i]
+			}
+		}
+	}
 	sep := '/'
 	oneClass := func(re *syntax.Regexp) bool {
 		return re.Op == syntax.OpCharClass && !canMatchAny(re, sep) && canMatchAny(re, 'a') && canMatchAny(re, '.')
@@ -476,7 +565,7 @@ func ruleC03Glob(c *Checker) {
 		good := len(fr) == 1
 		why := fmt.Sprintf("appends %q", fr)
 		if good {
-			re, err := syntax.Parse(fr[0], syntax.Perl)
+			re, err := syntax.Parse(prefix+fr[0], syntax.Perl)
 			good = err == nil && oneClass(re)
 		}
 		c.check(good, R, name, "fragment for '?'", p.Pos(comp.Pos()), why+": exactly one non-separator character", "'?' is not translated to exactly one non-separator character ("+why+"): a rule such as notes?.md then also matches notes.md (or a path with a separator)")
@@ -489,7 +578,7 @@ func ruleC03Glob(c *Checker) {
 		single := 0
 		bad := ""
 		for _, f := range fr {
-			re, err := syntax.Parse(f, syntax.Perl)
+			re, err := syntax.Parse(prefix+f, syntax.Perl)
 			if err != nil {
 				bad = fmt.Sprintf("%q does not parse", f)
 				continue
@@ -498,7 +587,11 @@ func ruleC03Glob(c *Checker) {
 			case re.Op == syntax.OpStar && len(re.Sub) == 1 && oneClass(re.Sub[0]):
 				single++
 			case canMatchAny(re, sep):
-				// a '**' form
+				// a '**' form: it spans whatever a path may contain, a line feed included (the
+				// single-segment forms are character classes and match one)
+				if !canMatchAny(re, '\n') {
+					bad = fmt.Sprintf("the '**' form %q cannot match a line feed (the expression is compiled without the s flag): a file name containing one is not covered by rules that cover its siblings", f)
+				}
 			default:
 				bad = fmt.Sprintf("%q is neither a run of non-separator characters nor a '**' form that can cross directories", f)
 			}
@@ -603,7 +696,7 @@ func ruleC03LastWins(c *Checker) {
 		})
 		dep := func(vals []ssa.Value, field string) bool {
 			for _, v := range vals {
-				for x := range p.backSlice(v, 0) {
+				for x := range p.sliceWithControl(v) {
 					if fa, ok := x.(*ssa.FieldAddr); ok {
 						if f := fieldOf(fa); f != nil && f.Name() == field {
 							return true
@@ -615,6 +708,28 @@ func ruleC03LastWins(c *Checker) {
 		}
 		c.check(len(exclV) > 0 && dep(exclV, "negated"), R, name, "Excluded depends on negated", p.Pos(r.Pos()), "a matching '!' rule re-includes", "the Excluded result no longer depends on the matching rule's negation flag")
 		c.check(len(domV) > 0 && dep(domV, "negationsAfter"), R, name, "Dominating depends on negationsAfter", p.Pos(r.Pos()), "Dominating is withheld when later negations exist", "Dominating no longer depends on whether negations follow the matching rule")
+		// ... and on the matching rule selecting a whole subtree: only a pattern ending in "**" (a trailing
+		// slash is spelled that way after parsing) matches everything below what it matched; "logs/*" also
+		// matches the directory probe "logs/" without matching logs/app/debug.txt
+		subtree := false
+		for _, v := range domV {
+			for x := range p.sliceWithControl(v) {
+				cl, ok := x.(*ssa.Call)
+				if !ok || !isFunc(calleeObj(cl), "strings", "HasSuffix") {
+					continue
+				}
+				sfx, ok := constString(cl.Call.Args[1])
+				if !ok || !strings.HasSuffix(sfx, "**") {
+					continue
+				}
+				for y := range p.backSlice(cl.Call.Args[0], 0) {
+					if fa, ok := y.(*ssa.FieldAddr); ok && fieldOf(fa) != nil && fieldOf(fa).Name() == "val" {
+						subtree = true
+					}
+				}
+			}
+		}
+		c.check(subtree, R, name, "Dominating only for subtree rules", p.Pos(r.Pos()), "Dominating is reported only when the matching pattern ends in \"**\"", "a match by a pattern that does not cover everything below (dir/*, which also matches the probe \"dir/\") is reported as Dominating: the walks then skip the directory and files whose own path no rule excludes (dir/sub/file) are left out")
 		// the match result gates the update
 		mT, _ := boolEdges(ex, extractOf(matchCall, 0))
 		c.check(len(mT) > 0, R, name, "update gated by match", p.Pos(matchCall.Pos()), "the result is updated only for matching rules", "the per-rule match result does not gate the update")
@@ -967,4 +1082,40 @@ func (p *Prog) removesPath(in ssa.Instruction, path ssa.Value) bool {
 		}
 	}
 	return false
+}
+
+
+// sliceWithControl: backSlice plus, for every phi in it, the branch
+// conditions that decide which edge the phi is entered over (a && b lowered
+// to control flow makes the result depend on a only through the branch).
+func (p *Prog) sliceWithControl(v ssa.Value) map[ssa.Value]bool {
+	out := map[ssa.Value]bool{}
+	var add func(v ssa.Value, depth int)
+	add = func(v ssa.Value, depth int) {
+		for x := range p.backSlice(v, 0) {
+			if out[x] {
+				continue
+			}
+			out[x] = true
+			ph, ok := x.(*ssa.Phi)
+			if !ok || depth > 4 {
+				continue
+			}
+			stop := ph.Block().Idom()
+			for _, pr := range ph.Block().Preds {
+				for b := pr; b != nil && b != stop; b = b.Idom() {
+					if ifi, ok := b.Instrs[len(b.Instrs)-1].(*ssa.If); ok {
+						add(ifi.Cond, depth+1)
+					}
+				}
+				if stop != nil {
+					if ifi, ok := stop.Instrs[len(stop.Instrs)-1].(*ssa.If); ok {
+						add(ifi.Cond, depth+1)
+					}
+				}
+			}
+		}
+	}
+	add(v, 0)
+	return out
 }
